@@ -89,7 +89,7 @@ func init() {
 		Runs:        map[string]int{"quick": 1600, "thorough": 120000},
 		MaxSec:      map[string]float64{"quick": 900, "thorough": 3600},
 		Prepare:     prepareWsimC,
-		Rule:        "one run = one Wuffs program (operator-stress generator over u8/u16/u32/u64 with modular, saturating, bitwise, shift, division, conversion, min/max/low_bits/high_bits, compound assignment on narrow types, private pure and impure calls, labelled break/continue out of nested loops; the C01 and C02 generators; hand corpus) accepted by the working tree's checker, plus one seeded history of public calls on a persistent receiver. The history is executed by the reference interpreter and by the C that the working tree's wuffs-c generates from the same source, compiled by clang-14 (-O0 with ASan+UBSan, or -O2, drawn) and driven by a generated main() performing exactly the recorded calls; compared: every return value, then every scalar field and array element through appended getters",
+		Rule:        "one run = one Wuffs program (operator-stress generator over u8/u16/u32/u64 with modular, saturating, bitwise, shift, division, conversion, min/max/low_bits/high_bits, compound assignment on narrow types, private pure and impure calls, labelled break/continue out of nested loops; the C01 and C02 generators; hand corpus) accepted by the working tree's checker, plus two to four independent seeded histories of public calls, each on a freshly initialised persistent receiver. Each history is executed by the reference interpreter and by the C that the working tree's wuffs-c generates from the same source, compiled by clang-14 (-O0 with ASan+UBSan, or -O2, drawn) and driven by a generated main() performing exactly the recorded calls; compared: every return value, then every scalar field and array element through appended getters",
 		Real:        []string{"lang/* front end and internal/cgen + cmd/wuffs-c of the working tree (the C is generated at check time), internal/cgen/base (the base library C is generated at check time), clang-14"},
 		Stub:        []string{"the source-level semantics: a tree-walking interpreter in ideal integers (engines/wsim/interp.go)"},
 		Assumptions: []string{"the interpreter is the reference for 'what the source means' (written from the language documentation; shares the front end with the compiler)", "programs for which wuffs-c fails or whose C does not compile give no comparison (counted in the evidence, not reported)", "=?, io_bind/io_limit, iterate, choose, SIMD, token I/O and multi-byte writes are outside the interpreter's subset"},
